@@ -178,7 +178,10 @@ def coq_eval(ctx, name, imports, defs, queries, timeout=1800):
         for i, q in enumerate(queries):
             f.write("Definition vq%d := Eval vm_compute in (%s).\n" % (i, q))
             f.write('Redirect "%s.q%d" Print vq%d.\n' % (os.path.join(ctx.work, name), i, i))
-    rc, out = sh(["coqc", "-Q", os.path.join(COQ, "theories"), "Jiva", "-w", "-all", path], cwd=ctx.work, timeout=timeout)
+    # evaluation of observed data: bounded address space, so that an implementation gone astray (huge
+    # observations) ends in an error of this check instead of exhausting the machine
+    rc, out = sh(["prlimit", "--as=%d" % (20 << 30), "coqc", "-Q", os.path.join(COQ, "theories"), "Jiva", "-w", "-all", path],
+                 cwd=ctx.work, timeout=timeout)
     if rc != 0:
         raise RuntimeError("coqc failed on %s:\n%s" % (path, out[-3000:]))
     vals = []
@@ -406,6 +409,9 @@ def write_evidence(ctx, proof, coverage_extra, assumptions, samples):
         samples=samples[:6] if samples else ["(none)"],
     )
     cov.update(coverage_extra)
+    if proof.get("coqchk"):
+        cov["coqchk"] = proof["coqchk"]
+        cov["checker_cmd"] += " && coqchk -silent -o Jiva.Properties.%s" % ctx.pid
     ev = dict(property_id=ctx.pid, tier=ctx.tier, seed=ctx.seed, level="proof", coverage=cov,
               assumptions=assumptions, wall_s=round(ctx.elapsed(), 2), violations=len(ctx.violations))
     if ctx.known:
@@ -435,6 +441,16 @@ def proof_layer(ctx):
     info["discharged"] = len([t for t in r["theorems"] if r["assumptions"].get(t) == "closed" or isinstance(r["assumptions"].get(t), list)]) if r["ok"] else 0
     if not r["ok"]:
         info.update(ok=False, why="Properties/%s.v does not check:\n%s" % (ctx.pid, r["log"][-2500:]))
+        return info
+    if ctx.tier == "thorough" and not os.environ.get("VERIF_NO_COQCHK"):
+        # independent re-check of the compiled property file and everything it depends on
+        ok, out = coqchk(["Jiva.Properties." + ctx.pid])
+        summary = out[out.find("CONTEXT SUMMARY"):] if "CONTEXT SUMMARY" in out else out[-1500:]
+        clean = ok and all(re.search(k + r":\s*<none>", summary) for k in
+                           ("Axioms", "type-in-type", "unsafe \\(co\\)fixpoints", "positivity is assumed"))
+        info["coqchk"] = dict(ok=clean, summary=" ".join(summary.split())[:600])
+        if not clean:
+            info.update(ok=False, why="coqchk does not accept Properties/%s.vo or reports assumptions:\n%s" % (ctx.pid, summary[-1500:]))
     return info
 
 
